@@ -364,7 +364,7 @@ fn wellformed_case(rng: &mut Rng, rep: &mut Report, idx: u64) {
         if long_lines && rng.chance(1, 3) {
             // lines of several thousand characters: long comments whose
             // tail looks like data, deep indentation, wide padding
-            let n = rng.pick(&[300usize, 1020, 1024, 1025, 2048, 5000]);
+            let n = rng.pick(&[300usize, 1020, 1024, 1025, 2048, 5000, 4095, 4096, 4097, 8191, 8192, 8193, 65535, 65536, 70000]);
             match rng.below(3) {
                 0 => {
                     text.push('#');
